@@ -125,7 +125,7 @@ MANIFEST_TEXT = {
                     "sequences decided by differential execution against a byte-buffer reference.",
             "note": _NOTE + "Reference file object = harness RefFile (Python binary-file semantics; MemoryFS' own file object has three deviations, documented "
                     "in fsrun.py). Known finding: seek beyond EOF clamps to the size.",
-            "technique": "Lean 4 proof (read, seek, write and truncate refine a byte buffer; frame at the filesystem level) + device-cluster correspondence + differential call sequences"},
+            "technique": "Lean 4 proof (read, seek, write and truncate refine a byte buffer; cursor model = translated FatIO.seek; frame at the filesystem level) + device-cluster correspondence + differential call sequences"},
     "C03": {"text": "Theorems: parse(serialise(FAT)) = FAT for FAT12 (every length)/16/32 incl. reserved bits; scan(serialise(directory)) = directory incl. long names, "
                     "whatever follows the end mark. Theorem c03_fs_synced: in the filesystem-level model Model.Fs (device = second copy changed only by flush_fat / "
                     "update_directory_entry) memory and device agree after every call of every history, however the call ended; the model's device state is "
@@ -137,7 +137,8 @@ MANIFEST_TEXT = {
                     "entries untouched; flush/parse identity. Theorem c04_fs_reachable: every reachable state of the filesystem-level model Model.Fs (all histories of "
                     "create/create(wipe)/makedir/remove/removedir/write/truncate, failed calls included) has a FAT that represents exactly the chains owned by the "
                     "directory tree (no cross-link: c04_fs_no_crosslink, no leak: c04_fs_no_leak), the follower returns each entry's chain (c04_fs_follow), every "
-                    "directory fits its chain, every file's chain has exactly max(1, ceil(size/cluster)) clusters (c04_fs_size_matches_chain; the translated "
+                    "directory fits its chain (c04_fs_checked_start: from ANY state the proved-sound executable checker accepts — the suite runs it on the state derived "
+                    "from every image and after every call), every file's chain has exactly max(1, ceil(size/cluster)) clusters (c04_fs_size_matches_chain; the translated "
                     "calc_num_clusters is proved to be that ceiling). Image-level statement decided by the independent checker on real closed images.",
             "note": _NOTE + "Model.Alloc is tied to allocate_bytes/get_cluster_chain/free_cluster_chain by component correspondence (suite volume), Model.Fs to the "
                     "primitives by lock-step execution (suite fsmodel).",
